@@ -340,6 +340,8 @@ def _check(plan, ctx):
                     result, rnames = _transform(op, data, other, s, names, n)
             except _Skip:
                 continue
+            except Violation:
+                raise
             except Exception as e:
                 ctx.reject(f"{op} raises on these operands: {type(e).__name__}")
                 data._group_colnames = ()
